@@ -510,7 +510,7 @@ func main() {
 	run.Cov["scenarios"] = per
 	run.Sample(map[string]any{"scenario": scenarios[2].name, "reference_bigFail": ref["bigFail"]})
 	run.Sample(map[string]any{"reference_pageA": ref["pageA"].out})
-	run.Assumption("visible operations: sync.Pool Get/Put (reuse vs fresh object is an explorer choice), mutexes of the watch-mode cache, every Write of the per-goroutine writers (DefaultBufferSize = 32 so that renders flush often); unsynchronised accesses are the concern of the separate free-running -race pass of the same bodies")
+	run.Assumption("visible operations: sync.Pool Get/Put (reuse vs fresh object is an explorer choice), mutexes of the watch-mode cache, atomic operations (sync/atomic is shimmed; package-level atomics are restored between executions), every Write of the per-goroutine writers (DefaultBufferSize = 32 so that renders flush often); unsynchronised accesses are the concern of the separate free-running -race pass of the same bodies")
 	run.Finish(execs, max(2, execs-len(per)), "every schedule with ≤ B deviations of each scenario (normal and development mode), iterated from 0, states already expanded are cut; distinct schedules by construction; non-trivial = schedule other than the default one")
 }
 
